@@ -24,6 +24,7 @@ import (
 	hchttp "github.com/brutella/hc/hap/http"
 	hclog "github.com/brutella/hc/log"
 	"github.com/brutella/hc/verifshim/vsync"
+	"github.com/brutella/hc/verifshim/vyield"
 
 	"verif/internal/dlcheck"
 	"verif/internal/fw"
@@ -551,6 +552,14 @@ func execute(c *fw.Ctx, writers [][]int, prefix []int, bound int, prior int) []s
 		return true
 	}
 	vsync.HookActive = func() bool { return S.Active() }
+	// a goroutine the library starts while a managed thread runs is a thread of the explorer, too
+	vyield.GoHook = func(fn func()) {
+		if S.Active() {
+			S.Spawn(fn)
+			return
+		}
+		go fn()
+	}
 	vsync.HookCondWait = func(cd *vsync.Cond, w *vsync.CondWaiter) bool {
 		S.Point(func() bool { return w.Woken })
 		return true
@@ -715,6 +724,7 @@ func execute(c *fw.Ctx, writers [][]int, prefix []int, bound int, prior int) []s
 	}
 	vsync.HookLock, vsync.HookUnlock, vsync.HookRLock, vsync.HookRUnlock = nil, nil, nil, nil
 	vsync.HookCondWait, vsync.HookActive = nil, nil
+	vyield.GoHook = nil
 	c.Eval(1)
 	c.State(1)
 	c.Trace(1)
